@@ -10,8 +10,10 @@ driver evaluates on the implementation's output (`*_iff` below ties the two form
                        a NaN length is not a hold of a chart (`nan_hold_counterexample` documents what happens there)
   counts_le            no hypothesis
   all_placed_if_room   no hypothesis
-  no_invention         hypothesis: no source file name contains ';'  (counterexample without it: D19c)
-  samples_conserved    same hypothesis; proved as an exact balance (`file_balance`)
+  no_invention         no hypothesis (since the D19c repair: names of a volume group are kept as a list)
+  samples_conserved    no hypothesis; proved as an exact balance (`file_balance`)
+  semicolon_counterexample   the hand-written pre-D19c variant (`copyJoin`: names joined with ';' and split again)
+                       violates both clauses on a name that contains ';' — the model of the repaired code does not
 
 "Neither input is modified" is not a statement about a pure function; it is observed by the harness.
 -/
@@ -23,11 +25,13 @@ namespace Reamber.Hitsound
 open Reamber.Timing (gather IsPerm)
 
 /-- Tie to the source: the constants of the model are the ones the translator read from
-`hitsound_copy.py` (`HS_CLAP/FINISH/WHISTLE`, the join and split separators) and from
+`hitsound_copy.py` (`HS_CLAP/FINISH/WHISTLE`; the names of a volume group are aggregated with `list`, iterated
+without any join or split, and filtered by `len(file) > 0`) and from
 `OsuMap.reset_samples` / `OsuSampleSet.AUTO`. Re-checked whenever the source changes. -/
 theorem consts_tie :
     hsClap = Generated.hsClap ∧ hsFinish = Generated.hsFinish ∧ hsWhistle = Generated.hsWhistle ∧
-    [sep] = Generated.joinSep ∧ [sep] = Generated.splitSep ∧
+    Generated.namesAggregator = "list" ∧ Generated.namesJoined = false ∧ Generated.namesSplit = false ∧
+    Generated.namesFilter = "len(file) > 0" ∧
     resetSet = Generated.resetHitsoundSet ∧ resetSet = Generated.resetSampleSet ∧
     resetSet = Generated.resetAdditionSet ∧ resetCustom = Generated.resetCustomSet ∧
     resetFile = Generated.resetHitsoundFile ∧
@@ -267,11 +271,10 @@ theorem countP_ev_at (f : File) (u : Rat) (l : List Ev) :
 
 /-- **the exact balance of named samples per time**: what the source has at `t` under the name `f` is what the
 result carries on notes at `t` plus what it carries as event samples at `t`. -/
-theorem file_balance (σs σt : List Nat) (src tgt : Chart) (h : PermsOk σs σt src tgt) (hsep : noSep src = true)
+theorem file_balance (σs σt : List Nat) (src tgt : Chart) (h : PermsOk σs σt src tgt)
     (t : Rat) (f : File) (hf : f ≠ []) :
     fileCntNotes src t f
       = fileCntNotes (copyWith σs σt src tgt) t f + fileCntEvs (copyWith σs σt src tgt) t f := by
-  have hS := noSepL_srcSorted σs σt src tgt h hsep
   have h1 : fileCntNotes (copyWith σs σt src tgt) t f
       = ((queue (srcSorted σs src) t).take ((df0 σt tgt).filter (fun n => n.offset == t)).length).countP (pFile f) := by
     show cnt (fun n => n.file == f) t _ = _
@@ -283,16 +286,16 @@ theorem file_balance (σs σt : List Nat) (src tgt : Chart) (h : PermsOk σs σt
     simp only [finalEvs_at, evsOf_countP]
   have h3 : (queue (srcSorted σs src) t).countP (pFile f) = fileCntNotes src t f := by
     rw [queue_count _ t (pFile f) (fun n => n.file == f)
-      (fun G v hG => queueG_file G v (fun n hn => hS n (hG n hn)) f hf)]
+      (fun G v _ => queueG_file G v f hf)]
     exact src_count σs σt src tgt h _ (file_active f hf) (fun _ => rfl) t
   rw [h1, h2, ← List.countP_append, List.take_append_drop, h3]
 
 /-- **[M] every named sample of the source ends up on a result note at that time or as an event sample at
-that time** (with multiplicity), provided no name contains `;`. -/
-theorem samples_conserved (σs σt : List Nat) (src tgt : Chart) (h : PermsOk σs σt src tgt) (hsep : noSep src = true) :
+that time** (with multiplicity) — whatever the names contain. -/
+theorem samples_conserved (σs σt : List Nat) (src tgt : Chart) (h : PermsOk σs σt src tgt) :
     SamplesConserved src (copyWith σs σt src tgt) := by
   intro t f hf
-  exact Nat.le_of_eq (file_balance σs σt src tgt h hsep t f hf)
+  exact Nat.le_of_eq (file_balance σs σt src tgt h t f hf)
 
 theorem srcHas_of_cnt (src : Chart) (t : Rat) (p : Note → Bool) (h : 0 < cnt p t src) : srcHas src t p = true := by
   unfold cnt at h
@@ -309,8 +312,8 @@ theorem cnt_pos_of_mem (c : Chart) (p : Note → Bool) (n : Note) (hn : n ∈ no
 
 /-- **[M] every hitsound the result carries was present in the source at the same time**: each clap, finish,
 whistle and named sample on a result note, and each event sample, has a source note of that time with the same
-bit / name; the sample-set fields are the reset value. Provided no source name contains `;`. -/
-theorem no_invention (σs σt : List Nat) (src tgt : Chart) (h : PermsOk σs σt src tgt) (hsep : noSep src = true) :
+bit / name; the sample-set fields are the reset value. -/
+theorem no_invention (σs σt : List Nat) (src tgt : Chart) (h : PermsOk σs σt src tgt) :
     NoInvention src (copyWith σs σt src tgt) := by
   have hcl := counts_le σs σt src tgt h
   constructor
@@ -336,7 +339,7 @@ theorem no_invention (σs σt : List Nat) (src tgt : Chart) (h : PermsOk σs σt
     have hfile : (n.file == [] || srcHas src n.offset (fun s => s.file == n.file)) = true := by
       by_cases hf : n.file = []
       · simp [hf]
-      · have hb := file_balance σs σt src tgt h hsep n.offset n.file hf
+      · have hb := file_balance σs σt src tgt h n.offset n.file hf
         have hpos : 0 < fileCntNotes (copyWith σs σt src tgt) n.offset n.file :=
           cnt_pos_of_mem _ (fun s => s.file == n.file) n hn (by simp)
         have : 0 < cnt (fun s => s.file == n.file) n.offset src := by
@@ -357,7 +360,7 @@ theorem no_invention (σs σt : List Nat) (src tgt : Chart) (h : PermsOk σs σt
     obtain ⟨vol, hp⟩ := evsOf_mem _ _ e he'
     have hused := queue_used _ _ _ (List.mem_of_mem_drop hp)
     have hf : e.file ≠ [] := by simpa [pUsed] using hused
-    have hb := file_balance σs σt src tgt h hsep e.offset e.file hf
+    have hb := file_balance σs σt src tgt h e.offset e.file hf
     have hpos : 0 < fileCntEvs (copyWith σs σt src tgt) e.offset e.file := by
       unfold fileCntEvs
       rw [List.countP_pos_iff]
@@ -485,18 +488,22 @@ theorem samplesConservedB_iff (src out : Chart) : samplesConservedB src out = tr
     · simp only [Bool.or_eq_true, beq_iff_eq, decide_eq_true_eq]
       exact Or.inr (h s.offset s.file hf)
 
-/-! ### the hypotheses are needed: counterexamples on the model (known finding D19c; domain boundary of
-`notes_preserved`) -/
+/-! ### what the D19c repair removed (on the hand-written pre-fix variant), and the domain boundary of
+`notes_preserved` -/
 
 /-- source: one hit at time 0 with the named sample `a;b`; target: one hit at time 0 -/
 def semiSrc : Chart := ⟨[⟨0, 0, none, 0, 0, 0, 0, 5, [97, 59, 98]⟩], [], []⟩
 def semiTgt : Chart := ⟨[⟨0, 0, none, 0, 0, 0, 0, 0, []⟩], [], []⟩
 
-/-- **D19c** — a `;` inside a name: the result carries `a` on the note and `b` as an event sample; the named
-sample `a;b` is on no note and in no event sample, and two names the source never had appear. -/
+/-- **D19c (fixed)** — the code before the repair joined the names of a volume group with `;` and split them
+again (`copyJoin`, hand-written): with a `;` inside a name the result carries `a` on the note and `b` as an event
+sample; the named sample `a;b` is on no note and in no event sample, and two names the source never had appear.
+The model of the repaired code keeps the name whole on the note. -/
 theorem semicolon_counterexample :
-    ¬ SamplesConserved semiSrc (copy semiSrc semiTgt) ∧ ¬ NoInvention semiSrc (copy semiSrc semiTgt) := by
-  constructor
+    ¬ SamplesConserved semiSrc (copyJoin semiSrc semiTgt) ∧ ¬ NoInvention semiSrc (copyJoin semiSrc semiTgt) ∧
+    (copyJoin semiSrc semiTgt).samples = [⟨0, [98], 5⟩] ∧
+    copy semiSrc semiTgt = ⟨[⟨0, 0, none, 0, 0, 0, 0, 5, [97, 59, 98]⟩], [], []⟩ := by
+  refine ⟨?_, ?_, by decide +kernel, by decide +kernel⟩
   · rw [← samplesConservedB_iff]; decide +kernel
   · rw [← noInventionB_iff]; decide +kernel
 
@@ -525,7 +532,7 @@ def exTgt : Chart :=
 
 example : PermsOk [0, 1, 2, 3] [0, 1, 3, 2] exSrc exTgt :=
   ⟨by unfold IsPerm; decide, by decide +kernel, by unfold IsPerm; decide, by decide +kernel⟩
-example : noSep exSrc = true ∧ holdsHaveLength exTgt = true := by decide +kernel
+example : holdsHaveLength exTgt = true := by decide +kernel
 /-- two volume groups (20: C C / F F / W + `a`, `c`; 30: W + `b`), three target notes at time 0: the defaults of
 group 20 take two notes, `a` the third, `c` and `b` overflow, the whistle of group 30 is dropped -/
 example : copy exSrc exTgt =
